@@ -245,6 +245,9 @@ impl ProbeSpace {
                 // a tail shorter than the number of escaped characters of the shared literal prefix "/x\-y\-z/"
                 "/x-y-z/q".into(),
                 "/x-y-z/q/e".into(),
+                // digits / non-digits after a literal (expressions \\d+ and \\D+)
+                "/a/i-7".into(),
+                "/a/i-x".into(),
             ],
         }
     }
